@@ -15,7 +15,7 @@ EXTENDS Integers, Sequences, TLC, Json, IOUtils
 Rec == ndJsonDeserialize(IOEnv.TRACE)
 VARIABLES l, run, cfg, viol, hits, nruns, cfgd, leaseEnd, reqXid, reqSent, goodAck, lastSol, rebound, renewTried, strictLease
 vars == <<l, run, cfg, viol, hits, nruns, cfgd, leaseEnd, reqXid, reqSent, goodAck, lastSol, rebound, renewTried, strictLease>>
-Rules == {"H1", "H2", "H3", "H4", "H5", "Q2", "PANIC"}
+Rules == {"H1", "H2", "H3", "H4", "H5", "Q1", "Q2", "PANIC"}
 Add(v, x) == IF Len(v) >= 24 THEN v ELSE Append(v, x)
 RECURSIVE AddAll(_, _)
 AddAll(v, xs) == IF xs = <<>> THEN v ELSE AddAll(Add(v, Head(xs)), Tail(xs))
@@ -68,7 +68,9 @@ Step ==
                 ga == goodAck \/ rxa.good
                 cfgd2 == IF r.event = "configured" THEN TRUE ELSE IF r.event = "deconfigured" THEN FALSE ELSE cfgd
                 h1 == IF r.event = "configured" /\ ~ga THEN << <<l, "H1", r.now, r.addr>> >> ELSE <<>>
-                h2 == IF cfgd2 /\ rxa.until # -1 /\ r.now >= rxa.until THEN << <<l, "H2", r.now, rxa.until>> >> ELSE <<>>
+                \* (a poll up to 1 s after expiry that does not act is the discovery-silence finding of H3: while the renewing client
+                \* waits for the discovery of its server its dispatch is not run at all)
+                h2 == IF cfgd2 /\ rxa.until # -1 /\ r.now >= rxa.until THEN << <<l, "H2", r.now, rxa.until, IF r.now - rxa.until <= 1000 THEN "discovery-silence" ELSE "other">> >> ELSE <<>>
                 h3 == IF cfgd2 /\ rxa.until # -1 /\ (r.pa = -1 \/ r.pa > rxa.until) THEN << <<l, "H3", r.pa, rxa.until, IF r.pa # -1 /\ r.pa - rxa.until <= 1000 THEN "discovery-silence" ELSE "other">> >> ELSE <<>>
                 h4 == IF txa.badorder THEN << <<l, "H4", "renew-after-rebind", r.now>> >>
                       \* (frames are emitted after the poll's ingress: an ACK that arrives in this very poll has already extended the lease)
@@ -79,8 +81,15 @@ Step ==
                 tried == txa.renew \/ ArpOut(r.out) \/ (IF rxa.good THEN FALSE ELSE renewTried)
                 h4b == IF cfgd /\ rebindNow /\ ~tried /\ rxa.strict /\ ~rxa.good THEN << <<l, "H4", "rebind-without-renewal", r.now>> >> ELSE <<>>
                 h5 == IF ~cfgd2 /\ (r.pa = -1 \/ r.pa - r.now > cfg.bound) THEN << <<l, "H5", r.now, r.pa>> >> ELSE <<>>
+                \* Q1 (C13): a poll strictly before the announced deadline at which nothing arrived does nothing.  (While a renewing
+                \* client waits for the discovery of its server the announced deadline is the discovery silence, up to 1 s past the
+                \* lease end: the known finding of H3, named here so that it is told apart.)
+                early == "probe" \in DOMAIN r /\ r.probe /\ r.rx = <<>> /\ (r.deadline = -1 \/ r.now < r.deadline)
+                q1 == IF early /\ (r.out # <<>> \/ r.event # "none")
+                      THEN << <<l, "Q1", r.now, r.deadline, r.event,
+                                IF cfgd /\ leaseEnd # -1 /\ r.now >= leaseEnd /\ r.deadline # -1 /\ r.deadline - leaseEnd <= 1000 THEN "discovery-silence" ELSE "other">> >> ELSE <<>>
                 q2 == IF r.rx = <<>> /\ r.out = <<>> /\ r.pa # -1 /\ r.pa <= r.now THEN << <<l, "Q2", r.now, r.pa, IF r.pa = 0 THEN "reset-pass" ELSE "other">> >> ELSE <<>>
-            IN /\ viol' = AddAll(viol, h1 \o h2 \o h3 \o h4 \o h4b \o h5 \o q2)
+            IN /\ viol' = AddAll(viol, h1 \o h2 \o h3 \o h4 \o h4b \o h5 \o q1 \o q2)
                /\ cfgd' = cfgd2
                /\ leaseEnd' = rxa.until
                /\ reqXid' = txa.xid /\ reqSent' = txa.sent
@@ -92,7 +101,7 @@ Step ==
                /\ strictLease' = rxa.strict
                /\ hits' = [hits EXCEPT !["H1"] = @ + (IF r.event = "configured" THEN 1 ELSE 0), !["H2"] = @ + (IF cfgd2 THEN 1 ELSE 0),
                                        !["H3"] = @ + (IF cfgd2 THEN 1 ELSE 0), !["H4"] = @ + (IF txa.renew \/ txa.rebind THEN 1 ELSE 0),
-                                       !["H5"] = @ + (IF cfgd2 THEN 0 ELSE 1), !["Q2"] = @ + (IF r.rx = <<>> /\ r.out = <<>> THEN 1 ELSE 0)]
+                                       !["H5"] = @ + (IF cfgd2 THEN 0 ELSE 1), !["Q2"] = @ + (IF r.rx = <<>> /\ r.out = <<>> THEN 1 ELSE 0), !["Q1"] = @ + (IF early THEN 1 ELSE 0)]
                /\ UNCHANGED <<run, cfg, nruns>>
        [] r.ev = "panic" ->
             /\ viol' = Add(viol, <<l, "PANIC", r.msg>>) /\ hits' = [hits EXCEPT !["PANIC"] = @ + 1]
